@@ -34,13 +34,19 @@ import (
 
 	"github.com/cronokirby/saferith"
 	"github.com/fxamacker/cbor/v2"
+	"github.com/taurusgroup/multi-party-sig/internal/elgamal"
 	"github.com/taurusgroup/multi-party-sig/internal/round"
 	"github.com/taurusgroup/multi-party-sig/internal/types"
 	"github.com/taurusgroup/multi-party-sig/pkg/hash"
+	"github.com/taurusgroup/multi-party-sig/pkg/math/arith"
 	"github.com/taurusgroup/multi-party-sig/pkg/math/curve"
 	"github.com/taurusgroup/multi-party-sig/pkg/math/polynomial"
 	"github.com/taurusgroup/multi-party-sig/pkg/paillier"
 	"github.com/taurusgroup/multi-party-sig/pkg/party"
+	"github.com/taurusgroup/multi-party-sig/pkg/pedersen"
+	zksch "github.com/taurusgroup/multi-party-sig/pkg/zk/sch"
+	"github.com/taurusgroup/multi-party-sig/protocols/cmp/config"
+	"github.com/taurusgroup/multi-party-sig/verifharness/oracle"
 	"github.com/zeebo/blake3"
 )
 
@@ -345,6 +351,7 @@ type rv struct {
 	id   string      // independent identity of the value within its kind
 	val  interface{} // the real value
 	wdom string      // for kind "wd": its domain
+	own  []byte      // composite writers: the bytes the specification says the value hands to the framing (stated here, not asked of the value)
 }
 
 func (v rv) ident() string {
@@ -431,6 +438,49 @@ func rCiphertext(b []byte) rv { // the value of b as a number below 2^4096
 	return rv{kind: "ciphertext", id: new(big.Int).SetBytes(b).Text(16), val: ct}
 }
 
+// ---- composite writers: a value made of several components, written as their concatenation under one domain tag.
+// The bytes are restated from the components with independent encoders (compressed points from the math/big oracle,
+// fixed-width / minimal big-endian numbers).
+func cpt(b []byte) []byte { return oracle.BaseMul(new(big.Int).SetBytes(b)).Compressed() }
+func pad(b []byte, n int) []byte {
+	out := make([]byte, n)
+	copy(out[n-len(b):], b)
+	return out
+}
+func minimal(b []byte) []byte { return new(big.Int).SetBytes(b).Bytes() }
+func rElGamal(l, m []byte) rv {
+	return rv{kind: "elgamal", id: hx(l) + "*G," + hx(m) + "*G", val: &elgamal.Ciphertext{L: scalarOf(l).ActOnBase(), M: scalarOf(m).ActOnBase()},
+		own: append(cpt(l), cpt(m)...)}
+}
+func rSchCommit(c []byte) rv {
+	return rv{kind: "schcommit", id: hx(c) + "*G", val: &zksch.Commitment{C: scalarOf(c).ActOnBase()}, own: cpt(c)}
+}
+func rPaillierPK(n []byte) rv { // n: odd, no leading zero
+	return rv{kind: "paillierpk", id: hx(n), val: paillier.NewPublicKey(saferith.ModulusFromBytes(n)), own: minimal(n)}
+}
+func pedersenOf(n, s_, t []byte) *pedersen.Parameters {
+	return pedersen.New(arith.ModulusFromN(saferith.ModulusFromBytes(n)), new(saferith.Nat).SetBytes(s_), new(saferith.Nat).SetBytes(t))
+}
+func pedersenBytes(n, s_, t []byte) []byte {
+	return append(append(pad(minimal(n), 256), pad(minimal(s_), 256)...), pad(minimal(t), 256)...)
+}
+func rPedersen(n, s_, t []byte) rv {
+	return rv{kind: "pedersen", id: hx(n) + "," + hx(s_) + "," + hx(t), val: pedersenOf(n, s_, t), own: pedersenBytes(n, s_, t)}
+}
+func rSigMsg(b []byte) rv {
+	if b == nil {
+		return rv{kind: "sigmsgnil", id: "nil", val: types.SigningMessage(nil), own: []byte{}}
+	}
+	return rv{kind: "sigmsg", id: hx(b), val: types.SigningMessage(b), own: nb(b)}
+}
+func rCmpPublic(x, y, n, pn, ps, pt []byte) rv {
+	own := append(append(cpt(x), cpt(y)...), minimal(n)...)
+	own = append(own, pedersenBytes(pn, ps, pt)...)
+	return rv{kind: "cmppublic", id: strings.Join([]string{hx(x), hx(y), hx(n), hx(pn), hx(ps), hx(pt)}, ","),
+		val: &config.Public{ECDSA: scalarOf(x).ActOnBase(), ElGamal: scalarOf(y).ActOnBase(), Paillier: paillier.NewPublicKey(saferith.ModulusFromBytes(n)),
+			Pedersen: pedersenOf(pn, ps, pt)}, own: own}
+}
+
 type rawExp struct {
 	IsConstant   bool
 	Coefficients []curve.Point
@@ -460,6 +510,9 @@ func rExponent(isConstant bool, scalars ...[]byte) rv {
 
 // ownBytes: the bytes the value itself hands to the framing (this is what the type writes, not how it is framed).
 func ownBytes(v rv) ([]byte, error) {
+	if v.own != nil {
+		return v.own, nil
+	}
 	switch t := v.val.(type) {
 	case []byte:
 		return t, nil
@@ -686,6 +739,51 @@ func modeRich(domainsPath string, seed int64, out string) {
 		add("splice", rWd("X", append(append(nb(a), fa[len(fa)-1:]...), append(fb[:len(fb)-1-len(b)], b...)...)))
 		add("splice", rWd("X", append(append(nb(a), ')', '('), append([]byte("XY"), b...)...)))
 		add("splice", rWd("X", append(nb(a), b...)))
+		// 10. composite writers: every component must reach the digest, in its place (a component written twice, left
+		//     out, or two of them swapped gives colliding or misframed digests); against the components as separate items
+		{
+			l, m, m2 := rnd32(), rnd32(), rnd32()
+			add("composite", rElGamal(l, m))
+			add("composite", rElGamal(l, m2))
+			add("composite", rElGamal(m2, m))
+			add("composite", rElGamal(m, l))
+			add("composite", rElGamal(l, l))
+			add("composite", rElGamal(m, m))
+			add("composite", rPoint(l), rPoint(m))
+			add("composite", rBytes(append(cpt(l), cpt(m)...)))
+			add("composite", rSchCommit(l))
+			add("composite", rSchCommit(m))
+			add("composite", rSchCommit(l), rSchCommit(m))
+			add("composite", rPoint(l))
+			odd := func(n int) []byte { b := rnd(n); b[0] |= 0x80; b[n-1] |= 1; return b }
+			n1, n2 := odd(256), odd(256)
+			s1, t1, t2 := rnd(255), rnd(255), rnd(200)
+			add("composite", rPaillierPK(n1))
+			add("composite", rPaillierPK(n2))
+			add("composite", rNat(n1))
+			add("composite", rMod(n1))
+			add("composite", rPedersen(n1, s1, t1))
+			add("composite", rPedersen(n1, t1, s1))
+			add("composite", rPedersen(n2, s1, t1))
+			add("composite", rPedersen(n1, s1, t2))
+			add("composite", rPedersen(n1, t2, t2))
+			add("composite", rPedersen(n1, s1, s1))
+			add("composite", rPaillierPK(n1), rNat(pad(s1, 256)), rNat(pad(t1, 256)))
+			add("composite", rSigMsg(a))
+			add("composite", rSigMsg(nil))
+			add("composite", rSigMsg([]byte{}))
+			add("composite", rBytes(a))
+			add("composite", rSigMsg(a[:1]), rSigMsg(a[1:]))
+			add("composite", rCmpPublic(l, m, n1, n2, s1, t1))
+			add("composite", rCmpPublic(m, l, n1, n2, s1, t1))
+			add("composite", rCmpPublic(l, m, n2, n1, s1, t1))
+			add("composite", rCmpPublic(l, m, n1, n2, t1, s1))
+			add("composite", rCmpPublic(l, l, n1, n2, s1, t1))
+			add("composite", rCmpPublic(l, m, n1, n1, s1, t1))
+			add("composite", rCmpPublic(l, m2, n1, n2, s1, t1))
+			add("composite", rCmpPublic(l, m, n1, n2, s1, t2))
+			add("composite", rPoint(l), rPoint(m), rPaillierPK(n1), rPedersen(n2, s1, t1))
+		}
 		// 9. long items: every byte of the 64 bit length prefix that a realistic input can reach
 		for _, n := range []int{255, 256, 257, 300, 65535, 65536, 65536 + 256 + 3} {
 			long := rnd(n)
